@@ -1,3 +1,4 @@
+import PGV.Props.Facts.RuleTable
 import PGV.Proofs.Walker
 
 /-!
@@ -76,5 +77,10 @@ example :
      | .ok o => o.err o.groups | _ => none)
       = some (b! "\"Outer.A\" input \"3\", explain: it is more than 1 num-size; \"Outer.In.A\" input \"3\", explain: it is less than 5 num-size") := by
   decide
+
+/-- the code's rule table `validName2FnMap` binds every rule name to the function the model's table
+binds it to, and has exactly the model's rule names (re-extracted from the source on every run) -/
+theorem C16_rule_table : PGV.Expected.ruleTableOK PGV.Generated.ruleTable = true ∧ PGV.Expected.modelKeysOK PGV.Generated.ruleKeys = true :=
+  ⟨PGV.Props.Facts.T2_rule_table, PGV.Props.Facts.T2_model_keys⟩
 
 end PGV.Props.C16
